@@ -1,4 +1,4 @@
-import PewProofs.Convolve
+import PewProofs.ConvolveReal
 
 /-! # C18 — property theorems (the provable, exact-arithmetic part; see the header of
 `PewModel/Convolve.lean` for what is *not* proved) -/
@@ -84,12 +84,21 @@ theorem pad_conv_interior (x psf : List Rat) (hp : psf ≠ []) (k : Nat)
 
 /-! ## linspace and normalisation -/
 
-/-- `linspace a b n` has `n` entries, entry `i` is `a + i·(b − a)/(n − 1)` (the overwritten last
-entry included), so it starts at `a`, ends at `b` and is equally spaced -/
-theorem linspace_spec (a b : Rat) (n : Nat) :
+/-- `np.linspace(a, b, 1) = [a]` (the stop is not used; in the model the step `(b − a)/0` is multiplied by 0) -/
+theorem linspace_one (a b : Rat) : linspace a b 1 = [a] := by
+  simp [linspace]
+
+/-- `np.linspace(a, b, 0)` is empty -/
+theorem linspace_zero (a b : Rat) : linspace a b 0 = [] := by
+  simp [linspace]
+
+/-- for `n ≥ 2`: `linspace a b n` has `n` entries, entry `i` is `a + i·(b − a)/(n − 1)` (the overwritten last
+entry included), it starts at `a`, ends at `b` and consecutive entries differ by `(b − a)/(n − 1)` -/
+theorem linspace_spec (a b : Rat) (n : Nat) (hn : 2 ≤ n) :
     (linspace a b n).length = n ∧
     (∀ i, i < n → at0 (linspace a b n) i = a + (i : Rat) * ((b - a) / ((n : Rat) - 1))) ∧
-    (0 < n → at0 (linspace a b n) 0 = a) ∧ (1 < n → at0 (linspace a b n) (n - 1) = b) := by
+    at0 (linspace a b n) 0 = a ∧ at0 (linspace a b n) (n - 1) = b ∧
+    (∀ i, i + 1 < n → at0 (linspace a b n) (i + 1) - at0 (linspace a b n) i = (b - a) / ((n : Rat) - 1)) := by
   have hlen : (linspace a b n).length = n := by simp [linspace]
   have hat : ∀ i, i < n → at0 (linspace a b n) i = a + (i : Rat) * ((b - a) / ((n : Rat) - 1)) := by
     intro i hi
@@ -105,16 +114,20 @@ theorem linspace_spec (a b : Rat) (n : Nat) :
         exact_mod_cast this.ne'
       rw [hn]; field_simp; ring
     · rfl
-  refine ⟨hlen, hat, ?_, ?_⟩
-  · intro h; rw [hat 0 h]; simp
-  · intro h
-    rw [hat (n - 1) (by omega)]
+  refine ⟨hlen, hat, ?_, ?_, ?_⟩
+  · rw [hat 0 (by omega)]; simp
+  · rw [hat (n - 1) (by omega)]
     have h1 : ((n - 1 : Nat) : Rat) = (n : Rat) - 1 := by
       rw [Nat.cast_sub (by omega)]; simp
     have h2 : (n : Rat) - 1 ≠ 0 := by
-      have : (1 : Rat) < (n : Rat) := by exact_mod_cast h
+      have : (2 : Rat) ≤ (n : Rat) := by exact_mod_cast hn
       linarith
     rw [h1]; field_simp; ring
+  · intro i hi
+    rw [hat (i + 1) hi, hat i (by omega)]
+    push_cast; ring
+
+example : linspace 0 1 5 = [0, 1 / 4, 1 / 2, 3 / 4, 1] := by decide +kernel
 
 /-- dividing finite non-negative values with a positive sum by that sum gives the same number of
 weights, each in [0, 1], that sum to one -/
@@ -130,6 +143,467 @@ theorem normalise_sums_to_one (y : List Rat) (h0 : ∀ v ∈ y, 0 ≤ v) (hs : 0
     exact List.single_le_sum h0 v hv
 
 example : normalise [1, 3, 0, 4] = [1 / 8, 3 / 8, 0, 1 / 2] := by norm_num [normalise]
+
+/-! ## kernel generators -/
+
+/-- THE GENERATOR BODY, for a density with values in any ordered field (ℝ for the eight generators built from
+exp / log / powers): if the density is non-negative on the axis and positive at one axis point, the result has
+one row per axis point, its first column is the axis, its second column is the density divided by its sum,
+and those weights lie in [0, 1] and sum to one.  The two hypotheses are what is NOT proved for the eight
+transcendental densities (they are properties of `exp` and of real powers). -/
+theorem kernelWith_spec {K : Type} [Field K] [LinearOrder K] [IsStrictOrderedRing K]
+    (axis : List Rat) (pdf : Rat → K) (h0 : ∀ x ∈ axis, 0 ≤ pdf x) (h1 : ∃ x ∈ axis, 0 < pdf x) :
+    (kernelWith axis pdf).length = axis.length ∧
+    (kernelWith axis pdf).map Prod.fst = axis ∧
+    (kernelWith axis pdf).map Prod.snd = axis.map (fun x => pdf x / (axis.map pdf).sum) ∧
+    ((kernelWith axis pdf).map Prod.snd).sum = 1 ∧
+    ∀ w ∈ (kernelWith axis pdf).map Prod.snd, 0 ≤ w ∧ w ≤ 1 := by
+  have hy0 : ∀ v ∈ axis.map pdf, 0 ≤ v := by
+    intro v hv
+    obtain ⟨x, hx, rfl⟩ := List.mem_map.mp hv
+    exact h0 x hx
+  have hs : 0 < (axis.map pdf).sum := by
+    obtain ⟨x, hx, hpos⟩ := h1
+    exact lt_of_lt_of_le hpos (List.single_le_sum hy0 _ (List.mem_map_of_mem hx))
+  have hsnd : (kernelWith axis pdf).map Prod.snd = axis.map (fun x => pdf x / (axis.map pdf).sum) := by
+    unfold kernelWith stackCols normaliseK
+    rw [List.map_snd_zip (by simp)]
+    simp [List.map_map, Function.comp_def]
+  refine ⟨by simp [kernelWith, stackCols, normaliseK], ?_, hsnd, ?_, ?_⟩
+  · unfold kernelWith stackCols normaliseK
+    rw [List.map_fst_zip (by simp)]
+  · rw [hsnd]
+    have : axis.map (fun x => pdf x / (axis.map pdf).sum) = (axis.map pdf).map (· / (axis.map pdf).sum) := by
+      simp [List.map_map, Function.comp_def]
+    rw [this, sum_map_div_field]
+    exact div_self hs.ne'
+  · intro w hw
+    rw [hsnd] at hw
+    obtain ⟨x, hx, rfl⟩ := List.mem_map.mp hw
+    refine ⟨div_nonneg (h0 x hx) hs.le, ?_⟩
+    rw [div_le_one hs]
+    exact List.single_le_sum hy0 _ (List.mem_map_of_mem hx)
+
+/-- every generator (`betaWith`, `exponentialWith`, `inversegammaWith`, `laplaceWith`, `loglaplaceWith`,
+`lognormalWith`, `normalWith`, `superGaussianWith` and `triangular` are `generatorWith` at their axis kind):
+`size` rows, the first column is the `linspace` axis of its kind, the weights lie in [0, 1] and sum to one —
+given a density that is non-negative on the axis and positive somewhere on it -/
+theorem generator_spec {K : Type} [Field K] [LinearOrder K] [IsStrictOrderedRing K]
+    (kind : AxisKind) (pdf : Rat → K) (size : Nat) (scale shift : Rat)
+    (h0 : ∀ x ∈ axisOf kind size scale shift, 0 ≤ pdf x) (h1 : ∃ x ∈ axisOf kind size scale shift, 0 < pdf x) :
+    (generatorWith kind pdf size scale shift).length = size ∧
+    (generatorWith kind pdf size scale shift).map Prod.fst = axisOf kind size scale shift ∧
+    ((generatorWith kind pdf size scale shift).map Prod.snd).sum = 1 ∧
+    ∀ w ∈ (generatorWith kind pdf size scale shift).map Prod.snd, 0 ≤ w ∧ w ≤ 1 := by
+  obtain ⟨hl, hf, _, hs, hw⟩ := kernelWith_spec (axisOf kind size scale shift) pdf h0 h1
+  refine ⟨?_, hf, hs, hw⟩
+  unfold generatorWith
+  rw [hl]
+  cases kind <;> simp [axisOf, axisUnit, axisPos, axisSym, linspace]
+
+/-- an everywhere positive density (what `exp` gives the exponential, Laplace, normal and super-Gaussian
+generators for a positive width) needs only a non-empty axis -/
+theorem generator_spec_of_pos {K : Type} [Field K] [LinearOrder K] [IsStrictOrderedRing K]
+    (kind : AxisKind) (pdf : Rat → K) (size : Nat) (scale shift : Rat) (hsize : 0 < size)
+    (hpos : ∀ x, 0 < pdf x) :
+    (generatorWith kind pdf size scale shift).length = size ∧
+    (generatorWith kind pdf size scale shift).map Prod.fst = axisOf kind size scale shift ∧
+    ((generatorWith kind pdf size scale shift).map Prod.snd).sum = 1 ∧
+    ∀ w ∈ (generatorWith kind pdf size scale shift).map Prod.snd, 0 ≤ w ∧ w ≤ 1 := by
+  apply generator_spec
+  · intro x _; exact (hpos x).le
+  · have hlen : (axisOf kind size scale shift).length = size := by
+      cases kind <;> simp [axisOf, axisUnit, axisPos, axisSym, linspace]
+    obtain ⟨x, hx⟩ := List.exists_mem_of_length_pos (by rw [hlen]; exact hsize)
+    exact ⟨x, hx, hpos x⟩
+
+example : ((generatorWith (K := Rat) .pos (fun x => 1 / (1 + x ^ 2)) 3 1 0).map Prod.snd).sum = 1 :=
+  (generator_spec_of_pos .pos (fun x : Rat => 1 / (1 + x ^ 2)) 3 1 0 (by norm_num)
+    (fun x => by show (0 : Rat) < 1 / (1 + x ^ 2); positivity)).2.2.1
+
+/-! ### the triangular generator, proved completely -/
+
+/-- the coded triangular density is non-negative for every `a < b` (wherever 0 lies) -/
+theorem triangularPdf_nonneg (a b x : Rat) (hab : a < b) : 0 ≤ triangularPdf a b x := by
+  unfold triangularPdf
+  split
+  · exact le_refl 0
+  · rename_i h
+    rw [not_or, not_lt, not_lt] at h
+    obtain ⟨h1, h2⟩ := h
+    split
+    · exact div_nonneg (by norm_num) (by linarith)
+    · split
+      · rename_i hx0 hxn
+        apply div_nonneg (by linarith)
+        exact (mul_pos_of_neg_of_neg (by linarith) (by linarith)).le
+      · rename_i hx0 hxn
+        have hxp : 0 < x := lt_of_le_of_ne (not_lt.mp hxn) (Ne.symm hx0)
+        apply div_nonneg (by linarith)
+        exact (mul_pos (by linarith) (by linarith)).le
+
+/-- … and positive exactly on the support minus the two foot points (`x = a < 0`, `x = b > 0`) -/
+theorem triangularPdf_pos_iff (a b x : Rat) (hab : a < b) :
+    0 < triangularPdf a b x ↔ a ≤ x ∧ x ≤ b ∧ ¬(x = a ∧ a < 0) ∧ ¬(x = b ∧ 0 < b) := by
+  unfold triangularPdf
+  split
+  · rename_i h
+    constructor
+    · intro h'; exact absurd h' (lt_irrefl 0)
+    · rintro ⟨h1, h2, _, _⟩
+      rcases h with h | h <;> linarith
+  · rename_i h
+    rw [not_or, not_lt, not_lt] at h
+    obtain ⟨h1, h2⟩ := h
+    split
+    · rename_i hx0
+      subst hx0
+      constructor
+      · intro _
+        exact ⟨h1, h2, fun ⟨e, l⟩ => by linarith, fun ⟨e, l⟩ => by linarith⟩
+      · intro _; exact div_pos (by norm_num) (by linarith)
+    · split
+      · rename_i hx0 hxn
+        have hden : 0 < a * (a - b) := mul_pos_of_neg_of_neg (by linarith) (by linarith)
+        constructor
+        · intro hp
+          refine ⟨h1, h2, ?_, fun ⟨e, l⟩ => by linarith⟩
+          rintro ⟨e, _⟩
+          subst e
+          simp at hp
+        · rintro ⟨_, _, hna, _⟩
+          have : a < x := lt_of_le_of_ne h1 (fun e => hna ⟨e.symm, by linarith⟩)
+          exact div_pos (by linarith) hden
+      · rename_i hx0 hxn
+        have hxp : 0 < x := lt_of_le_of_ne (not_lt.mp hxn) (Ne.symm hx0)
+        have hden : 0 < b * (b - a) := mul_pos (by linarith) (by linarith)
+        constructor
+        · intro hp
+          refine ⟨h1, h2, fun ⟨e, l⟩ => by linarith, ?_⟩
+          rintro ⟨e, _⟩
+          subst e
+          simp at hp
+        · rintro ⟨_, _, _, hnb⟩
+          have : x < b := lt_of_le_of_ne h2 (fun e => hnb ⟨e, by linarith⟩)
+          exact div_pos (by linarith) hden
+
+/-- `triangular(size, a, b, scale, shift)` for `a < b` and an axis point strictly inside `(a, b)`: `size` rows,
+first column the axis `linspace(−size/2·scale + shift, size/2·scale + shift, size)`, second column weights in
+[0, 1] that sum to one.  Nothing is assumed about the density: this generator is proved completely. -/
+theorem triangular_spec (size : Nat) (a b scale shift : Rat) (hab : a < b)
+    (hpt : ∃ x ∈ axisSym size scale shift, a < x ∧ x < b) :
+    (triangular size a b scale shift).length = size ∧
+    (triangular size a b scale shift).map Prod.fst = axisSym size scale shift ∧
+    ((triangular size a b scale shift).map Prod.snd).sum = 1 ∧
+    ∀ w ∈ (triangular size a b scale shift).map Prod.snd, 0 ≤ w ∧ w ≤ 1 := by
+  unfold triangular
+  apply generator_spec .sym (triangularPdf a b) size scale shift
+  · intro x _; exact triangularPdf_nonneg a b x hab
+  · obtain ⟨x, hx, h1, h2⟩ := hpt
+    refine ⟨x, hx, ?_⟩
+    rw [triangularPdf_pos_iff a b x hab]
+    exact ⟨h1.le, h2.le, fun ⟨e, _⟩ => by linarith, fun ⟨e, _⟩ => by linarith⟩
+
+example : (triangular 5 (-2) 2 1 0).map Prod.snd = [0, 3 / 14, 4 / 7, 3 / 14, 0] := by decide +kernel
+
+example : 0 < triangularPdf (-2) 2 (-5 / 4) := by
+  rw [triangularPdf_pos_iff (-2) 2 (-5 / 4) (by norm_num)]; norm_num
+
+example : ((triangular 4 (-1) 1 1 0).map Prod.snd).sum = 1 :=
+  (triangular_spec 4 (-1) 1 1 0 (by norm_num) ⟨-2 / 3, by decide +kernel, by norm_num, by norm_num⟩).2.2.1
+
+/-- an ascending `linspace` whose spacing is below `b − a` has a point strictly inside `(a, b)` as soon as the
+interval and the axis overlap -/
+theorem linspace_hits (lo hi a b : Rat) (n : Nat) (hn : 2 ≤ n) (hlh : lo < hi)
+    (hstep : (hi - lo) / ((n : Rat) - 1) < b - a) (h1 : lo < b) (h2 : a < hi) :
+    ∃ x ∈ linspace lo hi n, a < x ∧ x < b := by
+  obtain ⟨hlen, hat, h0, _, _⟩ := linspace_spec lo hi n hn
+  have hn1 : (0 : Rat) < (n : Rat) - 1 := by
+    have : (2 : Rat) ≤ (n : Rat) := by exact_mod_cast hn
+    linarith
+  have hpos : 0 < (hi - lo) / ((n : Rat) - 1) := div_pos (by linarith) hn1
+  have mem : ∀ i, i < n → at0 (linspace lo hi n) i ∈ linspace lo hi n := by
+    intro i hi'
+    rw [at0_of_lt _ _ (by rw [hlen]; exact hi')]
+    exact List.getElem_mem _
+  by_cases hc : a < lo
+  · have hm0 : lo ∈ linspace lo hi n := by
+      have := mem 0 (by omega)
+      rwa [h0] at this
+    exact ⟨lo, hm0, hc, h1⟩
+  · have hc' : lo ≤ a := not_lt.mp hc
+    generalize hh : (hi - lo) / ((n : Rat) - 1) = h at hpos hstep hat
+    have hnh : ((n : Rat) - 1) * h = hi - lo := by rw [← hh]; field_simp
+    have ht0 : 0 ≤ (a - lo) / h := div_nonneg (by linarith) hpos.le
+    have hth : (a - lo) / h * h = a - lo := div_mul_cancel₀ _ hpos.ne'
+    have htn : (a - lo) / h < (n : Rat) - 1 := by
+      rw [div_lt_iff₀ hpos]; linarith
+    have hfl : (⌊(a - lo) / h⌋₊ : Rat) ≤ (a - lo) / h := Nat.floor_le ht0
+    have hfu : (a - lo) / h < (⌊(a - lo) / h⌋₊ : Rat) + 1 := Nat.lt_floor_add_one _
+    have hi_lt : ⌊(a - lo) / h⌋₊ + 1 < n := by
+      have : ((⌊(a - lo) / h⌋₊ + 1 : Nat) : Rat) < (n : Rat) := by push_cast; linarith
+      exact_mod_cast this
+    refine ⟨at0 (linspace lo hi n) (⌊(a - lo) / h⌋₊ + 1), mem _ hi_lt, ?_, ?_⟩
+    · rw [hat _ hi_lt]
+      push_cast
+      have : (a - lo) / h * h < ((⌊(a - lo) / h⌋₊ : Rat) + 1) * h := mul_lt_mul_of_pos_right hfu hpos
+      linarith
+    · rw [hat _ hi_lt]
+      push_cast
+      have : ((⌊(a - lo) / h⌋₊ : Rat) + 1) * h ≤ ((a - lo) / h + 1) * h :=
+        mul_le_mul_of_nonneg_right (by linarith) hpos.le
+      linarith
+
+/-- the triangular generator from its parameters alone: `a < b`, at least two points, a positive scale, an axis
+spacing `size·scale/(size − 1)` below `b − a`, and a support that overlaps the axis -/
+theorem triangular_spec_of_params (size : Nat) (a b scale shift : Rat) (hab : a < b) (hn : 2 ≤ size)
+    (hsc : 0 < scale) (hstep : (size : Rat) * scale / ((size : Rat) - 1) < b - a)
+    (h1 : -(size : Rat) * (1 / 2) * scale + shift < b) (h2 : a < (size : Rat) * (1 / 2) * scale + shift) :
+    (triangular size a b scale shift).length = size ∧
+    (triangular size a b scale shift).map Prod.fst = axisSym size scale shift ∧
+    ((triangular size a b scale shift).map Prod.snd).sum = 1 ∧
+    ∀ w ∈ (triangular size a b scale shift).map Prod.snd, 0 ≤ w ∧ w ≤ 1 := by
+  apply triangular_spec size a b scale shift hab
+  unfold axisSym
+  have hs : (0 : Rat) < (size : Rat) := by
+    have : (2 : Rat) ≤ (size : Rat) := by exact_mod_cast hn
+    linarith
+  apply linspace_hits _ _ a b size hn
+  · nlinarith
+  · have e : (size : Rat) * (1 / 2) * scale + shift - (-(size : Rat) * (1 / 2) * scale + shift)
+        = (size : Rat) * scale := by ring
+    rw [e]; exact hstep
+  · exact h1
+  · exact h2
+
+/-- the repo's own table: `triangular(10, -5, 5)` -/
+example : ((triangular 10 (-5) 5 1 0).map Prod.snd).sum = 1 :=
+  (triangular_spec_of_params 10 (-5) 5 1 0 (by norm_num) (by norm_num) (by norm_num) (by norm_num)
+    (by norm_num) (by norm_num)).2.2.1
+
+/-- an odd size of at least three puts `shift` itself on the axis (the centre point): `a < shift < b` is
+enough, whatever the scale (zero and negative included) -/
+theorem triangular_spec_odd (k : Nat) (hk : 1 ≤ k) (a b scale shift : Rat) (h1 : a < shift) (h2 : shift < b) :
+    (triangular (2 * k + 1) a b scale shift).length = 2 * k + 1 ∧
+    (triangular (2 * k + 1) a b scale shift).map Prod.fst = axisSym (2 * k + 1) scale shift ∧
+    ((triangular (2 * k + 1) a b scale shift).map Prod.snd).sum = 1 ∧
+    ∀ w ∈ (triangular (2 * k + 1) a b scale shift).map Prod.snd, 0 ≤ w ∧ w ≤ 1 := by
+  apply triangular_spec _ a b scale shift (by linarith)
+  obtain ⟨hlen, hat, _, _, _⟩ := linspace_spec (-((2 * k + 1 : Nat) : Rat) * (1 / 2) * scale + shift)
+    (((2 * k + 1 : Nat) : Rat) * (1 / 2) * scale + shift) (2 * k + 1) (by omega)
+  have hmid : at0 (axisSym (2 * k + 1) scale shift) k = shift := by
+    unfold axisSym
+    rw [hat k (by omega)]
+    have hk0 : (k : Rat) ≠ 0 := by
+      have : 0 < k := hk
+      exact_mod_cast this.ne'
+    push_cast
+    field_simp
+    ring
+  have hmem : at0 (axisSym (2 * k + 1) scale shift) k ∈ axisSym (2 * k + 1) scale shift := by
+    rw [at0_of_lt _ _ (by unfold axisSym; rw [hlen]; omega)]
+    exact List.getElem_mem _
+  rw [hmid] at hmem
+  exact ⟨shift, hmem, h1, h2⟩
+
+example : ((triangular 3 (-1 / 3) (1 / 7) (-2) 0).map Prod.snd).sum = 1 :=
+  (triangular_spec_odd 1 (by norm_num) (-1 / 3) (1 / 7) (-2) 0 (by norm_num) (by norm_num)).2.2.1
+
+/-! ### the eight generators built from `exp`, `log`, real powers and `sqrt(2π)`
+
+`S : Special K` holds those functions; `S.Sound` says `exp` is positive, a power of a positive base is positive,
+`0 ** y ≥ 0`, `sqrt(2π) > 0` and `ofRat` is the embedding of ℚ.  Under `S.Sound` every density is positive on
+its support for every parameter of the documented domain (the gamma approximation inside `beta_pdf` and
+`inversegamma_pdf` is proved positive, `gammaApprox_pos`), so each generator returns `size` rows over its
+`linspace` axis with weights in [0, 1] that sum to one.  `realSpecial_sound` discharges `S.Sound` for the real
+functions.  (Exact real arithmetic: underflow of a float `exp` to 0 is outside these statements.) -/
+
+section densities
+variable {K : Type} [Field K] [LinearOrder K] [IsStrictOrderedRing K] {S : Special K}
+
+theorem exponentialPdf_pos (hS : S.Sound) (lam x : Rat) (hl : 0 < lam) : 0 < exponentialPdf S lam x := by
+  unfold exponentialPdf
+  rw [hS.cast]
+  exact mul_pos (by exact_mod_cast hl) (hS.exp_pos _)
+
+theorem laplacePdf_pos (hS : S.Sound) (b mu x : Rat) (hb : 0 < b) : 0 < laplacePdf S b mu x := by
+  unfold laplacePdf
+  rw [hS.cast]
+  have : (0 : Rat) < 1 / (2 * b) := by positivity
+  exact mul_pos (by exact_mod_cast this) (hS.exp_pos _)
+
+theorem normalPdf_pos (hS : S.Sound) (sigma mu x : Rat) (hs : 0 < sigma) : 0 < normalPdf S sigma mu x := by
+  unfold normalPdf
+  rw [hS.cast, hS.cast]
+  have h1 : (0 : K) < (sigma : K) := by exact_mod_cast hs
+  have := hS.s2pi_pos
+  exact mul_pos (by push_cast; positivity) (hS.exp_pos _)
+
+theorem superGaussianPdf_pos (hS : S.Sound) (sigma mu : Rat) (power : Nat) (x : Rat) (hs : 0 < sigma) :
+    0 < superGaussianPdf S sigma mu power x := by
+  unfold superGaussianPdf
+  rw [hS.cast, hS.cast]
+  have h1 : (0 : K) < (sigma : K) := by exact_mod_cast hs
+  have := hS.s2pi_pos
+  exact mul_pos (by push_cast; positivity) (hS.exp_pos _)
+
+theorem lognormalPdf_pos (hS : S.Sound) (sigma mu x : Rat) (hs : 0 < sigma) (hx : 0 < x) :
+    0 < lognormalPdf S sigma mu x := by
+  unfold lognormalPdf
+  simp only []
+  rw [hS.cast 1, hS.cast (x * sigma)]
+  have h1 : (0 : K) < ((x * sigma : Rat) : K) := by exact_mod_cast mul_pos hx hs
+  have := hS.s2pi_pos
+  exact mul_pos (by push_cast at h1 ⊢; positivity) (hS.exp_pos _)
+
+theorem loglaplacePdf_pos (hS : S.Sound) (b mu x : Rat) (hb : 0 < b) (hx : 0 < x) :
+    0 < loglaplacePdf S b mu x := by
+  unfold loglaplacePdf
+  rw [hS.cast (1 / (2 * b * x))]
+  have : (0 : Rat) < 1 / (2 * b * x) := by positivity
+  exact mul_pos (by exact_mod_cast this) (hS.exp_pos _)
+
+theorem inversegammaPdf_pos (hS : S.Sound) (alpha beta x : Rat) (ha : 0 < alpha) (hb : 0 < beta) (hx : 0 < x) :
+    0 < inversegammaPdf S alpha beta x := by
+  unfold inversegammaPdf
+  rw [hS.cast beta, hS.cast x, hS.cast (gammaApprox alpha)]
+  have hg : (0 : K) < ((gammaApprox alpha : Rat) : K) := by exact_mod_cast gammaApprox_pos alpha ha
+  have hbK : (0 : K) < (beta : K) := by exact_mod_cast hb
+  have hxK : (0 : K) < (x : K) := by exact_mod_cast hx
+  exact mul_pos (mul_pos (div_pos (hS.rpow_pos _ _ hbK) hg) (hS.rpow_pos _ _ hxK)) (hS.exp_pos _)
+
+theorem betaNorm_pos (alpha beta : Rat) (ha : 0 < alpha) (hb : 0 < beta) :
+    0 < gammaApprox alpha * gammaApprox beta / gammaApprox (alpha + beta) :=
+  div_pos (mul_pos (gammaApprox_pos _ ha) (gammaApprox_pos _ hb)) (gammaApprox_pos _ (by linarith))
+
+theorem betaPdf_nonneg (hS : S.Sound) (alpha beta x : Rat) (ha : 0 < alpha) (hb : 0 < beta)
+    (h0 : 0 ≤ x) (h1 : x ≤ 1) : 0 ≤ betaPdf S alpha beta x := by
+  unfold betaPdf
+  rw [hS.cast x, hS.cast (1 - x), hS.cast (gammaApprox alpha * gammaApprox beta / gammaApprox (alpha + beta))]
+  have hB : (0 : K) < ((gammaApprox alpha * gammaApprox beta / gammaApprox (alpha + beta) : Rat) : K) := by
+    exact_mod_cast betaNorm_pos alpha beta ha hb
+  have p : ∀ (t : Rat) (y : K), 0 ≤ t → 0 ≤ S.rpow (t : K) y := by
+    intro t y ht
+    rcases ht.lt_or_eq with h | h
+    · exact (hS.rpow_pos _ y (by exact_mod_cast h)).le
+    · subst h; simpa using hS.rpow_zero_nonneg y
+  exact div_nonneg (mul_nonneg (p x _ h0) (p (1 - x) _ (by linarith))) hB.le
+
+theorem betaPdf_pos (hS : S.Sound) (alpha beta x : Rat) (ha : 0 < alpha) (hb : 0 < beta)
+    (h0 : 0 < x) (h1 : x < 1) : 0 < betaPdf S alpha beta x := by
+  unfold betaPdf
+  rw [hS.cast x, hS.cast (1 - x), hS.cast (gammaApprox alpha * gammaApprox beta / gammaApprox (alpha + beta))]
+  have hB : (0 : K) < ((gammaApprox alpha * gammaApprox beta / gammaApprox (alpha + beta) : Rat) : K) := by
+    exact_mod_cast betaNorm_pos alpha beta ha hb
+  have hx : (0 : K) < (x : K) := by exact_mod_cast h0
+  have hx1 : (0 : K) < ((1 - x : Rat) : K) := by
+    have : (0 : Rat) < 1 - x := by linarith
+    exact_mod_cast this
+  exact div_pos (mul_pos (hS.rpow_pos _ _ hx) (hS.rpow_pos _ _ hx1)) hB
+
+end densities
+
+/-- what the property asks of a generator's return value: `size` rows, the first column is the axis, the
+weights lie in [0, 1] and sum to one -/
+def IsKernel {K : Type} [Field K] [LinearOrder K] (rows : List (Rat × K)) (size : Nat) (axis : List Rat) : Prop :=
+  rows.length = size ∧ rows.map Prod.fst = axis ∧ (rows.map Prod.snd).sum = 1 ∧
+    ∀ w ∈ rows.map Prod.snd, 0 ≤ w ∧ w ≤ 1
+
+section generators
+variable {K : Type} [Field K] [LinearOrder K] [IsStrictOrderedRing K] {S : Special K}
+
+/-- `exponential(size, λ, scale, shift)`: every `λ > 0`, every size ≥ 1, every scale and shift -/
+theorem exponential_isKernel (hS : S.Sound) (size : Nat) (lam scale shift : Rat) (hn : 0 < size) (hl : 0 < lam) :
+    IsKernel (exponential S size lam scale shift) size (axisPos size scale shift) :=
+  generator_spec_of_pos .pos _ size scale shift hn (fun x => exponentialPdf_pos hS lam x hl)
+
+/-- `laplace(size, b, mu, scale, shift)`: every `b > 0` -/
+theorem laplace_isKernel (hS : S.Sound) (size : Nat) (b mu scale shift : Rat) (hn : 0 < size) (hb : 0 < b) :
+    IsKernel (laplace S size b mu scale shift) size (axisSym size scale shift) :=
+  generator_spec_of_pos .sym _ size scale shift hn (fun x => laplacePdf_pos hS b mu x hb)
+
+/-- `normal(size, sigma, mu, scale, shift)`: every `sigma > 0` -/
+theorem normal_isKernel (hS : S.Sound) (size : Nat) (sigma mu scale shift : Rat) (hn : 0 < size) (hs : 0 < sigma) :
+    IsKernel (normal S size sigma mu scale shift) size (axisSym size scale shift) :=
+  generator_spec_of_pos .sym _ size scale shift hn (fun x => normalPdf_pos hS sigma mu x hs)
+
+/-- `super_gaussian(size, sigma, mu, power, scale, shift)`: every `sigma > 0`, every integer power -/
+theorem superGaussian_isKernel (hS : S.Sound) (size : Nat) (sigma mu : Rat) (power : Nat) (scale shift : Rat)
+    (hn : 0 < size) (hs : 0 < sigma) :
+    IsKernel (superGaussian S size sigma mu power scale shift) size (axisSym size scale shift) :=
+  generator_spec_of_pos .sym _ size scale shift hn (fun x => superGaussianPdf_pos hS sigma mu power x hs)
+
+/-- an axis `linspace(shift, size·scale + shift, size)` with both end points positive is positive throughout -/
+theorem axisPos_pos (size : Nat) (scale shift : Rat) (h0 : 0 < shift) (h1 : 0 < (size : Rat) * scale + shift) :
+    ∀ x ∈ axisPos size scale shift, 0 < x := by
+  intro x hx
+  have := (linspace_mem_between _ _ _ x hx).1
+  have hm : 0 < min shift ((size : Rat) * scale + shift) := lt_min h0 h1
+  linarith
+
+/-- a density that is positive on the positive axis (log-normal, log-Laplace, inverse gamma) -/
+theorem posAxis_isKernel (pdf : Rat → K) (size : Nat) (scale shift : Rat) (hn : 0 < size)
+    (h0 : 0 < shift) (h1 : 0 < (size : Rat) * scale + shift) (hpdf : ∀ x : Rat, 0 < x → 0 < pdf x) :
+    IsKernel (generatorWith .pos pdf size scale shift) size (axisPos size scale shift) := by
+  apply generator_spec .pos pdf size scale shift
+  · intro x hx; exact (hpdf x (axisPos_pos size scale shift h0 h1 x hx)).le
+  · have hlen : (axisPos size scale shift).length = size := by simp [axisPos, linspace]
+    obtain ⟨x, hx⟩ := List.exists_mem_of_length_pos (by rw [hlen]; exact hn)
+    exact ⟨x, hx, hpdf x (axisPos_pos size scale shift h0 h1 x hx)⟩
+
+/-- `lognormal(size, sigma, mu, scale, shift)`: `sigma > 0`, the axis inside `x > 0` -/
+theorem lognormal_isKernel (hS : S.Sound) (size : Nat) (sigma mu scale shift : Rat) (hn : 0 < size) (hs : 0 < sigma)
+    (h0 : 0 < shift) (h1 : 0 < (size : Rat) * scale + shift) :
+    IsKernel (lognormal S size sigma mu scale shift) size (axisPos size scale shift) :=
+  posAxis_isKernel _ size scale shift hn h0 h1 (fun x hx => lognormalPdf_pos hS sigma mu x hs hx)
+
+/-- `loglaplace(size, b, mu, scale, shift)`: `b > 0`, the axis inside `x > 0` -/
+theorem loglaplace_isKernel (hS : S.Sound) (size : Nat) (b mu scale shift : Rat) (hn : 0 < size) (hb : 0 < b)
+    (h0 : 0 < shift) (h1 : 0 < (size : Rat) * scale + shift) :
+    IsKernel (loglaplace S size b mu scale shift) size (axisPos size scale shift) :=
+  posAxis_isKernel _ size scale shift hn h0 h1 (fun x hx => loglaplacePdf_pos hS b mu x hb hx)
+
+/-- `inversegamma(size, alpha, beta, scale, shift)`: `alpha, beta > 0`, the axis inside `x > 0` -/
+theorem inversegamma_isKernel (hS : S.Sound) (size : Nat) (alpha beta scale shift : Rat) (hn : 0 < size)
+    (ha : 0 < alpha) (hb : 0 < beta) (h0 : 0 < shift) (h1 : 0 < (size : Rat) * scale + shift) :
+    IsKernel (inversegamma S size alpha beta scale shift) size (axisPos size scale shift) :=
+  posAxis_isKernel _ size scale shift hn h0 h1 (fun x hx => inversegammaPdf_pos hS alpha beta x ha hb hx)
+
+/-- `beta(size, alpha, beta, scale, shift)`: `alpha, beta > 0` (the property restricts to shapes ≥ 1 so that the
+density is finite at 0 and 1; in exact arithmetic positivity needs only > 0), at least three points, the axis
+`linspace(shift, scale + shift, size)` inside [0, 1] and not a single point -/
+theorem beta_isKernel (hS : S.Sound) (size : Nat) (alpha beta_ scale shift : Rat) (hn : 3 ≤ size)
+    (ha : 0 < alpha) (hb : 0 < beta_) (hsc : scale ≠ 0) (h0 : 0 ≤ shift) (h0' : shift ≤ 1)
+    (h1 : 0 ≤ 1 * scale + shift) (h1' : 1 * scale + shift ≤ 1) :
+    IsKernel (beta S size alpha beta_ scale shift) size (axisUnit size scale shift) := by
+  apply generator_spec .unit _ size scale shift
+  · intro x hx
+    obtain ⟨hlo, hhi⟩ := linspace_mem_between _ _ _ x hx
+    have : 0 ≤ min shift (1 * scale + shift) := le_min h0 h1
+    have : max shift (1 * scale + shift) ≤ 1 := max_le h0' h1'
+    exact betaPdf_nonneg hS alpha beta_ x ha hb (by linarith) (by linarith)
+  · obtain ⟨x, hx, hlo, hhi⟩ := linspace_second_strict shift (1 * scale + shift) size hn
+      (by intro h; apply hsc; linarith)
+    have : 0 ≤ min shift (1 * scale + shift) := le_min h0 h1
+    have : max shift (1 * scale + shift) ≤ 1 := max_le h0' h1'
+    exact ⟨x, hx, betaPdf_pos hS alpha beta_ x ha hb (by linarith) (by linarith)⟩
+
+end generators
+
+/-- with the real `exp`, `log`, powers and `√(2π)` nothing is left to assume: e.g. the normal and the beta
+generator over ℝ, for every parameter of their domains -/
+theorem normal_real (size : Nat) (sigma mu scale shift : Rat) (hn : 0 < size) (hs : 0 < sigma) :
+    IsKernel (normal realSpecial size sigma mu scale shift) size (axisSym size scale shift) :=
+  normal_isKernel realSpecial_sound size sigma mu scale shift hn hs
+
+theorem beta_real (size : Nat) (alpha beta_ : Rat) (hn : 3 ≤ size) (ha : 0 < alpha) (hb : 0 < beta_) :
+    IsKernel (beta realSpecial size alpha beta_ 1 0) size (axisUnit size 1 0) :=
+  beta_isKernel realSpecial_sound size alpha beta_ 1 0 hn ha hb (by norm_num) (by norm_num) (by norm_num)
+    (by norm_num) (by norm_num)
+
+/-- a `Special` over ℚ that is `Sound` (so the hypotheses are satisfiable with computable functions too) -/
+example : (⟨fun q => q, fun _ => 1, fun t => t, fun _ _ => 1, fun t => t, 1⟩ : Special Rat).Sound :=
+  ⟨fun _ => rfl, fun _ => one_pos, fun _ _ _ => one_pos, fun _ => zero_le_one, one_pos⟩
 
 /-! ## deconvolution -/
 
@@ -169,15 +643,30 @@ theorem deconv_conv (x psf : List Rat) (h0 : at0 psf 0 ≠ 0) (r : Nat) :
     field_simp
     ring
 
-/-- the whole `deconvolve` (series division, `trim_zeros`, the first `len c − len psf − 1`
-samples) applied to the full convolution of a signal without zero samples returns the leading
+/-- the number of samples `deconvolve` returns, for every input: `len c − len psf − 1` when the input is longer
+than the kernel; for `len c ≤ len psf` the stop of Python's slice is negative and `r − (len psf + 1 − len c)`
+of the `r` (the next power of two) coefficients come back -/
+theorem deconvolve_length (c psf : List Rat) :
+    (deconvolve c psf).length =
+      if psf.length < c.length then c.length - psf.length - 1
+      else nextPow2 (max c.length psf.length) - (psf.length + 1 - c.length) := by
+  unfold deconvolve
+  simp only []
+  rw [pySliceTo_length, seriesDiv_length]
+  have := le_nextPow2 (max c.length psf.length)
+  split <;> split <;> omega
+
+example : (deconvolve [1, 2, 3, 4, 5, 6] [2, 1]).length = 3 := by rw [deconvolve_length]; rfl
+example : (deconvolve [4, 2] [2, 1, 5]).length = 2 := by rw [deconvolve_length]; decide
+
+/-- the whole `deconvolve` (series division, the slice `[: len c − len psf − 1]`) applied to the full
+convolution of ANY signal of at least two samples — zero samples anywhere included — returns the leading
 `n − 2` samples of the signal -/
-theorem deconvolve_fullConv (x psf : List Rat) (h0 : at0 psf 0 ≠ 0) (hx : ∀ v ∈ x, v ≠ 0) (hne : x ≠ []) :
+theorem deconvolve_fullConv_of_two_le (x psf : List Rat) (h0 : at0 psf 0 ≠ 0) (h2 : 2 ≤ x.length) :
     deconvolve (fullConv x psf) psf = x.take (x.length - 2) := by
   have hm : 0 < psf.length := by
     by_contra hcon
     exact h0 (at0_of_ge psf 0 (by omega))
-  have hn : 0 < x.length := List.length_pos_iff.mpr hne
   unfold deconvolve
   simp only []
   rw [deconv_conv x psf h0]
@@ -186,14 +675,112 @@ theorem deconvolve_fullConv (x psf : List Rat) (h0 : at0 psf 0 ≠ 0) (hx : ∀ 
     have := le_nextPow2 (max (fullConv x psf).length psf.length)
     rw [hlen] at this ⊢
     omega
-  rw [map_at0_range_ge x _ hr, trimZeros_append_zeros x hx, hlen]
-  congr 1
-  omega
+  rw [map_at0_range_ge x _ hr, hlen]
+  unfold pySliceTo
+  rw [if_pos (by omega)]
+  have hk : (((x.length + psf.length - 1 : Nat) : Int) - (psf.length : Int) - 1).toNat = x.length - 2 := by omega
+  rw [hk, List.take_append_of_le_length (by omega)]
+
+/-- the deconvolution clause for the property's quantifier (signals at least as long as the kernel):
+no hypothesis on the samples -/
+theorem deconvolve_fullConv (x psf : List Rat) (h0 : at0 psf 0 ≠ 0) (hne : x ≠ [])
+    (hnm : psf.length ≤ x.length) :
+    deconvolve (fullConv x psf) psf = x.take (x.length - 2) := by
+  have hn : 0 < x.length := List.length_pos_iff.mpr hne
+  have hm : 0 < psf.length := by
+    by_contra hcon
+    exact h0 (at0_of_ge psf 0 (by omega))
+  by_cases h2 : 2 ≤ x.length
+  · exact deconvolve_fullConv_of_two_le x psf h0 h2
+  · -- one sample, one tap: the stop of the slice is −1, of r = 1 coefficients none is left
+    have hx1 : x.length = 1 := by omega
+    have hp1 : psf.length = 1 := by omega
+    have hlen : (fullConv x psf).length = 1 := by simp [fullConv, hx1, hp1]
+    have hl : (deconvolve (fullConv x psf) psf).length = 0 := by
+      rw [deconvolve_length, hlen, hp1]; decide
+    rw [List.length_eq_zero_iff.mp hl, hx1]
+    rfl
 
 example : deconvolve (fullConv [5, 3, 8, 1, 9] [2, 1]) [2, 1] = [5, 3, 8] := by
   have := deconvolve_fullConv [5, 3, 8, 1, 9] [2, 1] (by norm_num [at0]) (by simp) (by simp)
   simpa using this
 
+/-- a leading zero, an interior run of zeros: kept -/
+example : deconvolve (fullConv [0, 9, 0, 0, 2, 0, 4] [8, 1]) [8, 1] = [0, 9, 0, 0, 2] := by
+  have := deconvolve_fullConv [0, 9, 0, 0, 2, 0, 4] [8, 1] (by norm_num [at0]) (by simp) (by simp)
+  simpa using this
+
+/-- outside the quantifier (a one-sample signal, a longer kernel) the negative stop of the slice returns the
+sample followed by padding zeros: `r − 1` values for a signal of one -/
+theorem deconvolve_fullConv_single (v : Rat) (psf : List Rat) (h0 : at0 psf 0 ≠ 0) :
+    deconvolve (fullConv [v] psf) psf
+      = (v :: List.replicate (nextPow2 psf.length - 1) 0).take (nextPow2 psf.length - 1) := by
+  have hm : 0 < psf.length := by
+    by_contra hcon
+    exact h0 (at0_of_ge psf 0 (by omega))
+  unfold deconvolve
+  simp only []
+  rw [deconv_conv [v] psf h0]
+  have hlen : (fullConv [v] psf).length = psf.length := by simp [fullConv]
+  rw [hlen, Nat.max_self]
+  have hr : ([v] : List Rat).length ≤ nextPow2 psf.length := by
+    have := le_nextPow2 psf.length
+    simp only [List.length_singleton]; omega
+  rw [map_at0_range_ge [v] _ hr]
+  unfold pySliceTo
+  rw [if_neg (by omega)]
+  simp
+
+example : deconvolve (fullConv [7] [4, 2, 1]) [4, 2, 1] = [7, 0, 0] := by
+  rw [deconvolve_fullConv_single 7 [4, 2, 1] (by norm_num [at0])]; decide
+
+/-- `mode="same"`: the recovered samples followed by the input from there on -/
+theorem deconvolveSame_fullConv (x psf : List Rat) (h0 : at0 psf 0 ≠ 0) (hne : x ≠ [])
+    (hnm : psf.length ≤ x.length) :
+    deconvolveSame (fullConv x psf) psf = x.take (x.length - 2) ++ (fullConv x psf).drop (x.length - 2) := by
+  unfold deconvolveSame
+  simp only []
+  rw [deconvolve_fullConv x psf h0 hne hnm, List.length_take]
+  congr 2
+  omega
+
+example : deconvolveSame (fullConv [0, 3, 0, 1] [2, 1]) [2, 1] = [0, 3, 3, 2, 1] := by
+  have := deconvolveSame_fullConv [0, 3, 0, 1] [2, 1] (by norm_num [at0]) (by simp) (by simp)
+  rw [this]; decide +kernel
+
+/-- REGRESSION (the mechanism before /repo 5e4648b, `np.trim_zeros` before the slice): a signal with an exactly
+zero leading sample comes back shifted by one — the first sample is lost, a later one appears in its place -/
+theorem deconvolve_old_shifts :
+    deconvolveOld (fullConv [0, 9, 5, 43, 2, 27, 4, 15, 24] [8, 1]) [8, 1] = [9, 5, 43, 2, 27, 4, 15] ∧
+    deconvolve (fullConv [0, 9, 5, 43, 2, 27, 4, 15, 24] [8, 1]) [8, 1] = [0, 9, 5, 43, 2, 27, 4] := by
+  decide +kernel
+
+/-- what the hypothesis `∀ v ∈ x, v ≠ 0` of the earlier `deconvolve_fullConv` hid: the old mechanism is right
+exactly as far as the first and the last sample are non-zero -/
+theorem deconvolveOld_fullConv (x psf : List Rat) (h0 : at0 psf 0 ≠ 0) (h2 : 2 ≤ x.length)
+    (hh : ∀ a, x.head? = some a → a ≠ 0) (hl : ∀ a, x.getLast? = some a → a ≠ 0) :
+    deconvolveOld (fullConv x psf) psf = x.take (x.length - 2) := by
+  have hm : 0 < psf.length := by
+    by_contra hcon
+    exact h0 (at0_of_ge psf 0 (by omega))
+  unfold deconvolveOld
+  simp only []
+  rw [deconv_conv x psf h0]
+  have hlen : (fullConv x psf).length = x.length + psf.length - 1 := by simp [fullConv]
+  have hr : x.length ≤ nextPow2 (max (fullConv x psf).length psf.length) := by
+    have := le_nextPow2 (max (fullConv x psf).length psf.length)
+    rw [hlen] at this ⊢
+    omega
+  rw [map_at0_range_ge x _ hr, trimZeros_append_zeros x hh hl, hlen]
+  unfold pySliceTo
+  rw [if_pos (by omega)]
+  congr 1
+  omega
+
+
+example : deconvolveOld (fullConv [5, 0, 0, 1, 9] [2, 1]) [2, 1] = [5, 0, 0] := by
+  have := deconvolveOld_fullConv [5, 0, 0, 1, 9] [2, 1] (by norm_num [at0]) (by simp) (by simp) (by simp)
+  simpa using this
 
 /-! ## error function approximation -/
 
@@ -251,11 +838,57 @@ theorem erf_reduce {K : Type*} [Field K] [LinearOrder K] [IsStrictOrderedRing K]
     have e : ((-erfApprox x : Rat) : K) - -f x = -(((erfApprox x : Rat) : K) - f x) := by push_cast; ring
     rwa [e, abs_neg] at this
 
-/-- shape of the inverse: `sign(x) · g(x²)` is odd whatever `g` is -/
-theorem erfinv_odd (g : Rat → Rat) (x : Rat) : erfinvShape g (-x) = -erfinvShape g x := by
-  unfold erfinvShape
-  rw [sgn_neg]; ring_nf
+/-! ## inverse error function: `erfinv` as coded around π, log1p and sqrt -/
 
+/-- `erfinv` as coded is odd, whatever π, `log1p` and `sqrt` are (any field, any functions): the sign is the only
+place the sign of the argument enters, the rest sees `-x * x` -/
+theorem erfinv_odd {K : Type} [Field K] (pi : K) (log1p : Rat → K) (sqrt : K → K) (x : Rat) :
+    erfinvWith ⟨((↑) : Rat → K), pi, log1p, sqrt⟩ (-x) = -erfinvWith ⟨((↑) : Rat → K), pi, log1p, sqrt⟩ x := by
+  unfold erfinvWith
+  simp only []
+  have e : - -x * -x = -x * x := by ring
+  rw [e, sgn_neg]
+  push_cast
+  ring
+
+/-- … and vanishes at 0 (the sign is 0) -/
+theorem erfinv_zero {K : Type} [Field K] (pi : K) (log1p : Rat → K) (sqrt : K → K) :
+    erfinvWith ⟨((↑) : Rat → K), pi, log1p, sqrt⟩ 0 = 0 := by
+  unfold erfinvWith
+  simp [sgn]
+
+/-- the form written "without cancellation" is Winitzki's `−tt1 + sqrt(tt1² − tt2)`: for any `s` with
+`s² = tt1² − tt2` (the inner square root) and `tt1 + s ≠ 0` -/
+theorem erfinv_conjugate {K : Type} [Field K] (tt1 tt2 s : K) (hs : s * s = tt1 * tt1 - tt2) (hd : tt1 + s ≠ 0) :
+    -tt2 / (tt1 + s) = -tt1 + s := by
+  rw [div_eq_iff hd]
+  have : tt2 = tt1 * tt1 - s * s := by rw [hs]; ring
+  rw [this]; ring
+
+/-- the argument of the outer square root is non-negative and the denominator positive for every `l ≤ 0`
+(`l = log1p(−x²)` on (−1, 1)), given a square root that is non-negative and squares back on non-negatives:
+neither square root leaves its domain and there is no division by zero -/
+theorem erfinv_domain {K : Type} [Field K] [LinearOrder K] [IsStrictOrderedRing K] (tt1 tt2 : K) (sqrt : K → K)
+    (hsq : ∀ t, 0 ≤ t → 0 ≤ sqrt t ∧ sqrt t * sqrt t = t) (h2 : tt2 < 0) :
+    0 ≤ tt1 * tt1 - tt2 ∧ 0 < tt1 + sqrt (tt1 * tt1 - tt2) ∧ 0 < -tt2 / (tt1 + sqrt (tt1 * tt1 - tt2)) := by
+  have hd : 0 ≤ tt1 * tt1 - tt2 := by nlinarith [mul_self_nonneg tt1]
+  obtain ⟨hs0, hss⟩ := hsq _ hd
+  have hpos : 0 < tt1 + sqrt (tt1 * tt1 - tt2) := by
+    by_contra hcon
+    have hle : sqrt (tt1 * tt1 - tt2) ≤ -tt1 := by linarith [not_lt.mp hcon]
+    have : sqrt (tt1 * tt1 - tt2) * sqrt (tt1 * tt1 - tt2) ≤ (-tt1) * (-tt1) :=
+      mul_self_le_mul_self hs0 hle
+    nlinarith
+  exact ⟨hd, hpos, div_pos (by linarith) hpos⟩
+
+example : -(-16 : Rat) / (3 + 5) = -3 + 5 := erfinv_conjugate 3 (-16) 5 (by norm_num) (by norm_num)
+
+/-- the real square root meets the hypothesis of `erfinv_domain` -/
+example (tt1 tt2 : ℝ) (h2 : tt2 < 0) : 0 < -tt2 / (tt1 + Real.sqrt (tt1 * tt1 - tt2)) :=
+  (erfinv_domain tt1 tt2 Real.sqrt (fun t ht => ⟨Real.sqrt_nonneg t, Real.mul_self_sqrt ht⟩) h2).2.2
+
+example : erfinvWith (K := Rat) ⟨((↑) : Rat → Rat), 3, fun _ => 0, fun t => t⟩ (1 / 2) = 0 := by
+  norm_num [erfinvWith, sgn]
 
 /-! ## gamma approximation: the recursion skeleton -/
 
